@@ -1,5 +1,5 @@
 ---------------------------- MODULE SparseIndexMC ----------------------------
-EXTENDS SparseIndex, Json
+EXTENDS SparseIndex, Json, Randomization
 \* Export of cases for replay into the real index code (Mode B): one JSON line per behaviour
 \* Build -> NewKeyCondition -> Scan.
 \*
@@ -8,7 +8,10 @@ EXTENDS SparseIndex, Json
 SimTup(kk, x) == [i \in 1..kk |-> IF WithNull /\ RandomElement(1..6) = 1 THEN Null ELSE RandomElement(Vals)]
 SimRec(kk, x) == LET n == RandomElement(1..MaxRows)
                  IN SortSeq(TLCEval([i \in 1..n |-> SimTup(kk, x + i)]), RowLT)
-SimRecs(kk) == {SimRec(kk, j) : j \in 1..2}
+\* the sample is biased toward three key columns (6 of 10 records offered to Build): the decomposition into
+\* key-prefix rectangles only shows all its branches there.  With 3 key values and up to 8 rows most fragments
+\* (and every coarse range) of such a record span a change of the first key column.
+SimRecs(kk) == {SimRec(kk, j) : j \in 1..(IF kk = 3 THEN 6 ELSE 2)}
 
 \* fl = 0: comparisons (and now and then an atom on a non-key column); fl = 1: also IN and string operators;
 \* fl = 2: comparisons and matchphrase
@@ -27,7 +30,18 @@ SimTree(kk, fl, d, x) ==
   IF d = 0 \/ RandomElement(1..4) = 1 THEN SimAtom(kk, fl, x)
   ELSE [t |-> RandomElement({"and", "or"}), l |-> SimTree(kk, fl, d - 1, 2 * x), r |-> SimTree(kk, fl, d - 1, 2 * x + 1)]
 SimFlavour(x) == LET r == RandomElement(1..8) IN IF r = 1 THEN 1 ELSE IF r = 2 THEN 2 ELSE 0
-SimConds(kk) == {SimTree(kk, SimFlavour(j), CondDepth, j) : j \in 1..3}
+\* a chain over the key columns (AND mostly): one comparison on the LAST key column, and on each other
+\* column with probability 3/4 -- conditions that reach the innermost rectangles
+SimChainAtom(c, x) == [t |-> "cmp", c |-> c, op |-> RandomElement(CmpOps), v |-> RandomElement(Vals)]
+RECURSIVE SimChainR(_, _, _, _)
+SimChainR(o, c, kk, x) ==
+  IF c = kk THEN SimChainAtom(c, x)
+  ELSE IF RandomElement(1..4) = 1 THEN SimChainR(o, c + 1, kk, x)
+  ELSE [t |-> o, l |-> SimChainAtom(c, x), r |-> SimChainR(o, c + 1, kk, x)]
+SimChain(kk, x) == SimChainR(IF RandomElement(1..5) = 1 THEN "or" ELSE "and", 1, kk, x)
+\* one tree in four is of the matchphrase flavour (the string operators drive the bloom-filter reader)
+SimConds(kk) == {SimTree(kk, SimFlavour(j), CondDepth, j) : j \in 1..3} \cup {SimTree(kk, 2, CondDepth, 4)}
+                  \cup (IF kk >= 2 THEN {SimChain(kk, j) : j \in 1..(kk - 1)} ELSE {})
 
 \* time bounds on one key column (then that column is the integer column "time")
 SimTB(kk, c, x) ==
@@ -50,4 +64,70 @@ AllAtoms(kk) == CmpAtoms(kk) \cup InAtoms(kk) \cup StrAtoms(kk) \cup {NonKey}
 TwoSettings == {"autoc2m0", "exclc2m0"}
 
 Export == (Len(hist) = Depth) => PrintT(<<"TRACE", ToJson(hist)>>)
+
+-----------------------------------------------------------------------------
+\* Directed cases: a BFS over a small universe that exports the cases which DISTINGUISH a deviation from the
+\* design (SparseIndex!Distinguishes).  The Scan step of an exported case names the deviations it is directed
+\* at (args.dist) and carries the full expectation (design + as-implemented predictions, every reader setting).
+\* the unsound slips of the specification: each must have distinguishing cases (c20.py: exit 2 otherwise)
+UnsoundDevs == {"le_as_lt", "ge_as_gt", "or_as_and", "last_fragment_off_by_one", "null_as_minus_infinity",
+                "stale_range_between_rectangles", "left_point_stale", "right_point_stale", "last_column_open",
+                "right_bound_overwrites", "excl_drops_leftmost", "bin_end_off_by_one"}
+\* slips that only lose precision: no case may distinguish them (self-test)
+PrecisionDevs == {"lt_as_le", "and_as_or", "binary_search_always"}
+\* the slips that need two or three key columns (the decomposition into key-prefix rectangles)
+RectDevs == {"stale_range_between_rectangles", "left_point_stale", "right_point_stale", "right_bound_overwrites",
+             "last_column_open", "or_as_and"}
+OneKeyDevs == UnsoundDevs \ {"stale_range_between_rectangles", "left_point_stale", "right_point_stale", "right_bound_overwrites"}
+TwoKeyDevs == UnsoundDevs \ {"stale_range_between_rectangles"}
+
+DistDevs == {}        \* directed configurations override it
+\* a deviation with many distinguishing cases in a universe is only looked at in one state out of Thin(D)
+Thin(D) == 1
+NoThin(D) == 1
+\* measured on the quick universes so that each deviation keeps some hundred cases (c20.py samples further)
+ThinQ1(D) == CASE D = "bin_end_off_by_one" -> 100 [] D = "excl_drops_leftmost" -> 80 [] D = "or_as_and" -> 40
+               [] D = "null_as_minus_infinity" -> 40 [] D = "last_column_open" -> 25 [] D = "le_as_lt" -> 10
+               [] D = "last_fragment_off_by_one" -> 8 [] D = "ge_as_gt" -> 6 [] OTHER -> 1
+ThinQ2(D) == CASE D = "excl_drops_leftmost" -> 60 [] D = "or_as_and" -> 50 [] D = "bin_end_off_by_one" -> 20
+               [] D = "null_as_minus_infinity" -> 15 [] D = "last_column_open" -> 10 [] D = "le_as_lt" -> 8
+               [] D = "last_fragment_off_by_one" -> 8 [] D = "ge_as_gt" -> 5 [] D = "left_point_stale" -> 2 [] OTHER -> 1
+ThinQ3(D) == CASE D = "or_as_and" -> 100 [] D = "right_point_stale" -> 20 [] D = "left_point_stale" -> 10
+               [] D = "last_column_open" -> 10 [] OTHER -> 1
+\* the thorough universes are larger
+ThinT1(D) == 2 * ThinQ1(D)
+ThinT2(D) == 6 * ThinQ2(D)
+ThinT3(D) == CASE D = "or_as_and" -> 300 [] D = "right_point_stale" -> 60 [] D = "left_point_stale" -> 30
+               [] D = "last_column_open" -> 30 [] D = "right_bound_overwrites" -> 3 [] OTHER -> 1
+
+DistOf == {D \in DistDevs : (Thin(D) = 1 \/ RandomElement(1..Thin(D)) = 1) /\ Distinguishes(D)}
+AllSettings == DOMAIN Settings
+DistHist(ds) == [hist EXCEPT ![3] = [a |-> "Scan", args |-> [dist |-> SetToSeq(ds)],
+                                     exp |-> ScanExp(ScanOutW(TRUE, AllSettings, FullCond(cond, tb), rows, g, ct))]]
+ExportDist ==
+  IF phase # "done" THEN TRUE
+  ELSE LET ds == DistOf IN IF ds # {} THEN PrintT(<<"TRACE", ToJson(DistHist(ds))>>) ELSE TRUE
+\* self-test of the precision-only slips: no case of the universe distinguishes them
+NoneDistinguishes == phase = "done" => DistOf = {}
+
+\* conditions that constrain the key columns one by one: an AND chain (or an OR chain) of at most one
+\* comparison per key column -- what the decomposition into key-prefix rectangles is about
+ChainOps == {"eq", "ne", "lt", "ge"}
+ColAtoms(c) == {[t |-> "cmp", c |-> c, op |-> o, v |-> v] : o \in ChainOps, v \in ColVals(c)}
+RECURSIVE AtomSeqs(_, _)
+AtomSeqs(c, kk) == IF c > kk THEN {<<>>}
+                   ELSE LET rest == AtomSeqs(c + 1, kk) IN rest \cup {<<a>> \o s : a \in ColAtoms(c), s \in rest}
+RECURSIVE Chain(_, _)
+Chain(o, sq) == IF Len(sq) = 1 THEN sq[1] ELSE [t |-> o, l |-> sq[1], r |-> Chain(o, Tail(sq))]
+AndChains3 == {Chain("and", sq) : sq \in AtomSeqs(1, 3) \ {<<>>}}
+OrChains3  == {Chain("or", sq) : sq \in {x \in AtomSeqs(1, 3) : Len(x) > 1}}
+AndChainConds(kk) == AndChains3
+ChainConds(kk)    == AndChains3 \cup OrChains3
+
+\* universes over a tiny domain with three key columns
+Narrow3(c) == IF c = 3 THEN {0, 1, 2} ELSE {0, 1}     \* the third column with three values
+ThreeRows(kk) == SortedRecs(kk, 3)                      \* (L, m, R): with 2 rows per fragment the index is L, R, R
+\* quick tier: a seeded random part of the records (the thorough tier takes them all)
+Some40Recs(kk) == RandomSubset(40, AllRecs(kk))
+OneType(kk) == {TLCEval([i \in 1..kk |-> IF RandomElement(1..2) = 1 THEN "ia" ELSE "o"])}
 =============================================================================
